@@ -139,6 +139,7 @@ struct World {
 	// monitors reporting (nothing else is known about such a copy)
 	void (*snapshotHook)(Inst&, Method) = nullptr;
 	bool snapPending = false;
+	bool snapSuccMay[32] = {}, snapFailMay[32] = {}, snapTasksAdded = false;   // what may be outstanding in the authority when the snapshot is taken
 	bool inSnapshotCopy = false;                 // the copy constructor of a snapshot is running (it must not call back)
 	const char* const* muteAllow = nullptr;      // while set: only violations of the listed properties are reported
 
